@@ -318,6 +318,35 @@ class ExtReal:
             return fin(1 if a.sign == 1 else None, a.expr if a.sign == 1 else None)
         return fin(a.sign if (lo is None or not is_num(lo) or lo <= 0) and (hi is None or not is_num(hi) or hi >= 0) else None, None)
 
+    def _extremum(self, t, x, y, larger):
+        """torch.maximum / minimum: a NaN operand gives NaN; otherwise the operand the sign of x - y selects"""
+        a, b = self.ev(x), self.ev(y)
+        if a.kind == "nan":
+            return a
+        if b.kind == "nan":
+            return b
+        d = self.e_add(t, x, y, sub=True)
+        if d.kind == "zero":
+            return a
+        if d.kind != "nan" and d.sign is not None:
+            return a if (d.sign > 0) == larger else b
+        if a.kind == "inf" and b.kind == "inf" and a.sign == b.sign:
+            return a
+        if a.kind == b.kind and a.sign == b.sign:
+            return AV(a.kind, a.sign, None)
+        if "inf" in (a.kind, b.kind):
+            i_, o_ = (a, b) if a.kind == "inf" else (b, a)
+            if o_.kind != "inf":
+                return i_ if (i_.sign > 0) == larger else o_
+            return a if (a.sign > 0) == larger else b
+        return fin(None, None)
+
+    def e_maximum(self, t, x, y):
+        return self._extremum(t, x, y, True)
+
+    def e_minimum(self, t, x, y):
+        return self._extremum(t, x, y, False)
+
     def e_zeros_like(self, t, x):
         return zero()
 
